@@ -40,7 +40,7 @@ CLAIMED = {
          "index writer and reader use the same quantiser (rtreeRect) for every rectangle; in WITHIN/INTERSECTS, sparse and plain, the user iterator runs only on the true edge of the exact predicate applied to the query object and the index is searched with the query's rectangle; index insert/delete are symmetric (R19.delta); the two float32 quantisers move a value outward for either sign of the input (symbolic evaluation of a·d + b·|d| on exact rational constants; the magnitude of the nudge is not decided); TEST's area parser and the search parser build each area keyword with the same constructors; no geometric predicate is applied to an object and itself",
          "that outward float32 rounding contains every float64 box (numeric), the R-tree itself and the geometric predicates (libraries)"),
  "C20": ("dominating-guard extraction with operand provenance on go/cfg; must-pass-through for in-loop removals",
-         "an element removed from a slice inside an index loop is followed by i-- before the increment (fenceMatchRoam's dwelling filter); in fenceMatchNearbys a candidate is appended only under distance(moved object, candidate) <= roam.meters and an id filter that is glob.Match under roam.pattern and equality otherwise; the reported meters is the distance between those two objects; faraway distances are recomputed against the new position; no self-operand distance",
+         "an element removed from a slice inside an index loop is followed by i-- before the increment, and two local slices that share an array are not used independently after one was modified in place (fenceMatchRoam's neighbour lists); in fenceMatchNearbys a candidate is appended only under distance(moved object, candidate) <= roam.meters and an id filter that is glob.Match under roam.pattern and equality otherwise; the reported meters is the distance between those two objects; faraway distances are recomputed against the new position; no self-operand distance",
          "the nearby/faraway set algebra with NODWELL and the distance values themselves"),
  "C11": ("normal-form extraction of the cursor iterators on go/cfg; forward dataflow counting cursor steps per item (exactly-once); who-may-write on the cursor counters; always-true result analysis of the filter stage",
          "the cursor protocol: along every path through a per-item callback the cursor is stepped zero times for an item skipped by the offset test and exactly once otherwise, before the user iterator, and the stepping helper itself steps exactly once whenever the cursor is not nil; filters never end the iteration; every Collection iterator with a Cursor pre-steps the offset once under cursor != nil, and its per-item callback counts, skips while count <= offset without calling the user iterator, steps, then calls the user iterator; scanWriter sets hitLimit only at numberItems == limit and stops there, reports numberIters iff hitLimit, and the counters have single writers",
@@ -64,7 +64,7 @@ CLAIMED = {
          "'malformed input never crashes the server or affects other connections': every index and slice on strings, argument vectors, byte buffers and arrays in internal/server and internal/glob is proved within bounds on every path (about 450 sites by the analysis, the rest by reviewed exemptions naming one construct or one server-internal unit each); messages are never given an empty argument vector; reply builders that dereference their object are only called with a definitely assigned one; every pooled Lua state is released on every exit, including error returns; handleInputCommand writes exactly one reply per path; every dispatcher recovers the deadline panic; the carry buffers of the stream readers (PipelineReader.ReadMessages, loadAOF) hold exactly the unparsed remainder before the next read and at every normal return (must-dataflow)",
          "independence of the replies from TCP segmentation beyond the carry-buffer invariant (the parsers' own behaviour over all splits)"),
  "C17": ("JSON fragment typing: a JSON lexer over the literal pieces of every hand-assembled chain plus producer classification of every hole (resolved callees, reviewed tables); exhaustiveness of output-mode switches",
-         "'every reply is one valid JSON document': in every hand-assembled JSON chain of the server (concatenations, byte-buffer append sequences, Sprintf formats; about 190 holes) a hole between double quotes is produced by a quote-free text producer and a hole at value position by a JSON value producer, no chain ends inside a string; the repository's JSON string encoders take the json.Marshal path for every byte that needs escaping (the byte test is evaluated for all 256 values) and nothing but json.Marshal produces the escaped form; every OutputType switch has both arms; reply builders get a definitely assigned object and exactly one reply is written per path (R16 rules)",
+         "'every reply is one valid JSON document': in every hand-assembled JSON chain of the server (concatenations, byte-buffer append sequences, Sprintf formats; about 190 holes) a hole between double quotes is produced by a quote-free text producer and a hole at value position by a JSON value producer, no chain ends inside a string; the repository's JSON string encoders take the json.Marshal path for every byte that needs escaping (the byte test is evaluated for all 256 values) and nothing but json.Marshal produces the escaped form; field values that Value.JSON() splices verbatim (Number, JSON) are only ever built from text validated with gjson.Valid or from valid constants; every OutputType switch has both arms; reply builders get a definitely assigned object and exactly one reply is written per path (R16 rules)",
          "agreement of the RESP and JSON encodings on the conveyed result (value-level)"),
 }
 
